@@ -452,14 +452,16 @@ def main():
             add(f'KRead {tag} {wl} {reslit(r, lambda s: G.obs_geom(s, Q))}', {'op': 'read', 'kind': kind, 'text': text, 'origin': 'special'})
         r = guarded(lambda: parse_wkt(text))
         add(f'KParseTok {wl} {reslit(r, lambda s: G.obs_geom(s, Q))}', {'op': 'parse_tok', 'kind': 'parse', 'text': text, 'origin': 'special'})
-    # valid base texts: the library's own text for one shape of each type, plus integer-form variants
-    bases = []
-    for spec in fixed_shapes():
-        spec.setdefault('dt', None)
-        spec.setdefault('props', None)
-        bases.append((TAG[spec['kind']], G.build(spec).to_wkt()))
-    bases += [('TPoly', 'POLYGON((0 0,4 0,0 4), (1 1,1 2,2 1))'), ('TMPoly', 'MULTIPOLYGON(((0 0,4 0,0 4)), ((9 9,8 9,9 8)))'),
-              ('TPoint', 'POINT Z (1 2 1500.5)')]
+    # valid base texts.  The polygon / multilinestring / multipolygon gates still backtrack exponentially on a match
+    # that fails deep in the text (3 s for a 100-character polygon with one stray character, also after repair
+    # D33), so those types use short bases; longer decimal-form ones only in the thorough tier.
+    bases = [('TPoint', 'POINT(12.5 -3.25)'), ('TPoint', 'POINT(1.0 2.0 3.5)'), ('TPoint', 'POINT Z (1 2 1500.5)'),
+             ('TLine', 'LINESTRING(0.0 0.0,1.5 1.0)'), ('TMPoint', 'MULTIPOINT(0.0 0.0, 1.0 1.5)'),
+             ('TPoly', 'POLYGON((0 0,4 0,0 4), (1 1,1 2,2 1))'), ('TMLine', 'MULTILINESTRING((0 0,1 1), (2 2,3 3))'),
+             ('TMPoly', 'MULTIPOLYGON(((0 0,4 0,0 4)), ((9 9,8 9,9 8)))')]
+    if not quick:
+        bases += [('TLine', 'LINESTRING(0.0 0.0,1.5 1.0,2.0 -0.5)'), ('TPoly', 'POLYGON((0.0 0.0,4.0 0.0,0.0 4.0))'),
+                  ('TMPoly', 'MULTIPOLYGON(((0 0,4 0,0 4), (1 1,1 2,2 1)))')]
     for tag, base in bases:
         assert run_impl(lambda: SIMPLE[KIND_OF_TAG[tag]].from_wkt(base))[0] == 'Ok', base
     alphabet = ALPHABET if not quick else ['7', '.', '-', ' ', ',', '(', ')', 'Z']
